@@ -216,8 +216,12 @@ var ffTampers = []tamperFn{
 	{"block.StateHash", true, func(b *hg.Block, f *hg.Frame, _ *member, _ *cluster, _ *rand.Rand) {
 		b.Body.StateHash = append(append([]byte{}, b.Body.StateHash...), 1)
 	}},
-	{"block.FrameHash", true, func(b *hg.Block, f *hg.Frame, _ *member, _ *cluster, _ *rand.Rand) { b.Body.FrameHash = []byte{1, 2, 3} }},
-	{"block.PeersHash", true, func(b *hg.Block, f *hg.Frame, _ *member, _ *cluster, _ *rand.Rand) { b.Body.PeersHash = []byte{1, 2, 3} }},
+	{"block.FrameHash", true, func(b *hg.Block, f *hg.Frame, _ *member, _ *cluster, _ *rand.Rand) {
+		b.Body.FrameHash = []byte{1, 2, 3}
+	}},
+	{"block.PeersHash", true, func(b *hg.Block, f *hg.Frame, _ *member, _ *cluster, _ *rand.Rand) {
+		b.Body.PeersHash = []byte{1, 2, 3}
+	}},
 	{"block.Transactions", true, func(b *hg.Block, f *hg.Frame, _ *member, _ *cluster, _ *rand.Rand) {
 		b.Body.Transactions = append(b.Body.Transactions, []byte("forged"))
 	}},
